@@ -56,10 +56,10 @@ def session_run(text: str, F, rng, mode=None):
     import shutil
     import tempfile
     from pathlib import Path as P
-    from . import session_driver as sd
+    from . import session_driver as sd, srcio
     d = P(tempfile.mkdtemp(prefix="verif_proj_"))
     try:
-        (d / "test_case.py").write_text(text)
+        srcio.write_source(d / "test_case.py", text)
         if F:
             flags = list(F)
             rng.shuffle(flags)
@@ -81,7 +81,7 @@ def session_run(text: str, F, rng, mode=None):
             o = oc["test_case.py::test_%d" % n]
             obs["tests"].append({"outcome": o, "exc": None if o == "passed" else [o, ""], "missing": 0, "incorrect": 0})
             n += 1
-        obs["files"] = {"test_case.py": (d / "test_case.py").read_text()}
+        obs["files"] = {"test_case.py": srcio.read_source(d / "test_case.py")}
         return obs
     finally:
         shutil.rmtree(d, ignore_errors=True)
